@@ -5,6 +5,7 @@ at the announced time fails; (b) model - at update entry the independent schedul
 (model_sched) finds no input whose source lags behind the time that will actually be requested.
 """
 from .. import gen_coupling, sched_run
+from ..findings import predicate
 from ..runner import Outcome, Property
 
 
@@ -13,6 +14,14 @@ def shape_key(spec):
     steps = tuple(sorted(tuple(c["steps"]) for c in comps if c["type"] == "time"))
     chains = tuple(sorted(tuple(a[0] for a in ln["chain"]) for ln in spec["links"]))
     return repr((steps, chains, tuple(spec["order"]), spec["meta"].get("cyclic"), spec["meta"].get("n_pull")))
+
+
+@predicate("integration_adapter_asked_twice_for_one_time")
+def _f22(pid, spec, v):
+    """a delay adapter below an integration adapter repeats its (clamped) request time: the integration adapter is asked
+    for an interval of zero length and raises; recognised by the recorder's observation, not by the message"""
+    return (pid == "C01" and spec.get("meta", {}).get("integ_before_delay") and v.get("kind") in ("pull_failed_in_update", "time_error_in_run")
+            and v.get("where") == "repeated_request_at_integration_adapter")
 
 
 def classify_orderings(spec, out):
@@ -45,7 +54,7 @@ class C01(Property):
     )
     assumptions = (
         "harness consumers pull exactly at the announced next_time and producers publish at every step",
-        "integration adapters are not placed nearer to the source than a delay adapter on one link (zero-length averaging interval, outside C12's domain)",
+        "a delay adapter directly below an integration adapter is generated in a class of its own (known finding F22); the other classes keep integration adapters nearer to the consumer than delay adapters",
         "each pull-based component serves one consumer link here; fan-out of pull-based components is C20's subject (known finding F11)",
     )
     cases = {"quick": 1500, "thorough": 120000}
@@ -53,7 +62,11 @@ class C01(Property):
 
     def gen(self, rnd, i, tier):
         cyc = "sufficient" if rnd.random() < 0.35 else None
-        return gen_coupling.gen_dag(rnd, cycle=cyc, shipped=0.0 if cyc else 0.25)
+        spec = gen_coupling.gen_dag(rnd, cycle=cyc, shipped=0.0 if cyc else 0.25)
+        if not cyc and rnd.random() < 0.08:
+            # every ordering of adapters: a delay adapter directly below an integration adapter (known finding F22)
+            return gen_coupling.with_delay_below_integration(spec, rnd)
+        return gen_coupling.with_user_adapters(spec, rnd, 0.3) if rnd.random() < 0.3 else spec
 
     def run(self, spec):
         out = Outcome()
@@ -61,6 +74,10 @@ class C01(Property):
         rep = sched_run.run_spec(spec)
         out.count("updates_checked", len(rep.updates))
         out.count("compositions")
+        if spec["meta"].get("integ_before_delay"):
+            out.count("compositions_with_delay_below_integration_adapter")
+        if spec.get("auto_start"):
+            out.count("compositions_finding_their_start_time_themselves")
         classify_orderings(spec, out)
         for f in rep.pull_failures:
             if f["exc"] in ("FinamTimeError", "FinamNoDataError"):
@@ -74,7 +91,7 @@ class C01(Property):
         out.count("publication_log_checks", len(rep.updates))
         if rep.outcome != "ok":
             if rep.outcome in ("FinamTimeError", "FinamNoDataError") and rep.phase == "run" and not rep.pull_failures:
-                out.viol("time_error_in_run", f"run() ended with {rep.outcome}: {rep.message}", spec=spec, trace=rep.trace)
+                out.viol("time_error_in_run", f"run() ended with {rep.outcome}: {rep.message}", spec=spec, trace=rep.trace, where=rep.refusals.last())
             elif not out.violations:
                 out.notes.append(f"run aborted in {rep.phase}: {rep.outcome}")
                 out.count("aborted_runs")
@@ -105,8 +122,8 @@ class C01(Property):
     def coverage_gaps(self, counters, tier):
         need = ["updates_checked", "pulls_served", "delay_upstream_of_push_based", "delay_downstream_of_push_based", "links_with_several_delays",
                 "delay_resolved_cycles_completed", "compositions_with_pull_based_components", "compositions_with_shipped_components", "compositions_with_sparse_publishers", "compositions_with_fanout_below_adapter", "compositions_with_look_ahead_links",
-                "refused_publications_in_runs", "links_with_user_defined_delay_adapter"] + [
-                    "adapter_" + a for a in ("scale", "probe", "lin", "next", "prev", "step", "avg", "sum", "dfix", "dpull", "dpush")]
+                "refused_publications_in_runs", "links_with_user_defined_delay_adapter", "compositions_with_delay_below_integration_adapter", "compositions_finding_their_start_time_themselves"] + [
+                    "adapter_" + a for a in ("scale", "probe", "lin", "next", "prev", "step", "avg", "sum", "dfix", "dpull", "dpush", "hold")]
         gaps = [f"{k} never observed" for k in need if not counters.get(k)]
         if counters.get("aborted_runs", 0) > 0.05 * max(1, counters.get("compositions", 0)):
             gaps.append(f"{counters.get('aborted_runs')} of {counters.get('compositions')} runs aborted for reasons outside this property")
